@@ -51,4 +51,41 @@ CHECKS = {
         "tests": fam("C06", (3000, 96000), (300, 9600)),
         "assumptions": COMMON_ASSUMPTIONS,
     },
+    "C05": {
+        "level": "exploration",
+        "tests": [{"name": "TestC05Small", "quick": 8000, "thorough": 320000}, {"name": "TestC05Wide", "quick": 300, "thorough": 12000},
+                  {"name": "TestC05Regress", "quick": 0}],
+        "assumptions": COMMON_ASSUMPTIONS + ["Advance targets are > the last returned document and non-decreasing (API contract); ReplaceActual only before the first step, with a subset of ActualBitmap(), on a non-1-hit iterator"],
+    },
+    "C08": {
+        "level": "exploration",
+        "tests": [{"name": "TestC08", "quick": 5000, "thorough": 160000}, {"name": "TestC08Regress", "quick": 0}, {"name": "TestC08RegressRange", "quick": 0}],
+        "assumptions": COMMON_ASSUMPTIONS + ["range bounds are nil or non-empty with start <= end; automata implement the segment.Automaton contract"],
+    },
+    "C11": {
+        "level": "exploration",
+        "tests": fam("C11", (3000, 96000), (60, 1920)),
+        "assumptions": COMMON_ASSUMPTIONS + ["the footer layout is taken from README.md"],
+    },
+    "C13": {
+        "level": "exploration",
+        "tests": [{"name": "TestC13", "quick": 4000, "thorough": 128000}, {"name": "TestC13Regress", "quick": 0}],
+        "assumptions": COMMON_ASSUMPTIONS + ["an object handed back as prealloc is dead afterwards (aliasing is the caller's responsibility)"],
+    },
+    "C16": {
+        "level": "exploration",
+        "tests": [{"name": "TestC16Small", "quick": 4000, "thorough": 128000}, {"name": "TestC16Wide", "quick": 30, "thorough": 960, "min_per_shard": 8},
+                  {"name": "TestC16Regress", "quick": 0}],
+        "assumptions": COMMON_ASSUMPTIONS + ["reported field length equals the sum of the field's term frequencies (the property's stated domain)"],
+    },
+    "C17": {
+        "level": "exploration",
+        "tests": [{"name": "TestC17Small", "quick": 1200, "thorough": 38400}, {"name": "TestC17Wide", "quick": 30, "thorough": 640, "min_per_shard": 8}],
+        "assumptions": [COMMON_ASSUMPTIONS[0], COMMON_ASSUMPTIONS[2], "metamorphic: no reference model is involved, only observational equality of two merge results"],
+    },
+    "C18": {
+        "level": "exploration",
+        "tests": [{"name": "TestC18", "quick": 6000, "thorough": 192000}, {"name": "TestC18Regress", "quick": 0}],
+        "assumptions": COMMON_ASSUMPTIONS,
+    },
 }
